@@ -47,6 +47,8 @@ type Config struct {
 	OnlyTier   string            `json:"only_tier"`
 	Replay     string            `json:"replay"` // "native" (R1: same harness natively) | "none" | driver name
 	DeadlockOK bool              `json:"deadlock_ok"`
+	PersistInit []string         `json:"persist_init"` // repo packages whose globals are initialised once per worker (read-only after init)
+	persist    map[string]bool
 	Doc        string            `json:"doc"`
 	Bounds     string            `json:"bounds"`
 }
@@ -86,7 +88,7 @@ func (c *Config) withTier(tier string) *Config {
 		}
 	}
 	if out.Unwind == 0 {
-		out.Unwind = 64
+		out.Unwind = 1_000_000 // no per-loop cap by default: the per-path instruction budget bounds every loop and is reported, never silently truncated
 	}
 	if out.MaxSteps == 0 {
 		out.MaxSteps = 5_000_000
@@ -108,6 +110,10 @@ func (c *Config) withTier(tier string) *Config {
 	}
 	if out.TimeoutMS == 0 {
 		out.TimeoutMS = 60_000
+	}
+	out.persist = map[string]bool{}
+	for _, p := range out.PersistInit {
+		out.persist[repoMod+"/"+p] = true
 	}
 	if out.SkipInit == nil {
 		out.SkipInit = map[string]bool{}
